@@ -838,7 +838,7 @@ package mqtt
 // verif:def emptyNode(c *particle) bool = c.retainPath == "" && len(c.particles.internal) == 0 && len(c.subscriptions.internal) == 0 && c.shared.nshared == 0 && len(c.inlineSubscriptions.internal) == 0
 // index shape: a node registered in its parent is registered under its own key; every node has its three tables (newParticle)
 // verif:def wfTrie() bool = forall x *particle :: x != nil && x.parent != nil && has(x.parent.particles.internal, x.key) ==> x.parent.particles.internal[x.key] == x
-// verif:def nodesValid() bool = forall x *particle :: x != nil ==> x.subscriptions != nil && x.shared != nil && x.inlineSubscriptions != nil && x.particles.internal != nil
+// verif:def nodesValid() bool = forall x *particle :: x != nil ==> x.subscriptions != nil && x.shared != nil && sharedInv(x.shared) && x.inlineSubscriptions != nil && x.particles.internal != nil
 // verif:func mqtt.TopicsIndex.trim
 //@ modifies allentries("string", "*particle")
 //@ ensures index-shape-kept: wfTrie() && nodesValid()
@@ -1048,7 +1048,7 @@ package mqtt
 // the index operations RetainMessage uses: they build / prune nodes and never touch the retained store
 // verif:func mqtt.TopicsIndex.set trusted
 //@ modifies allentries("string", "*particle")
-//@ ensures r0 != nil && r0 != x.root && r0 == pathNode(topic, d) && r0.parent != nil && r0.subscriptions != nil && r0.subscriptions.internal != nil && r0.shared != nil && r0.inlineSubscriptions != nil && r0.inlineSubscriptions.internal != nil
+//@ ensures r0 != nil && r0 != x.root && r0 == pathNode(topic, d) && r0.parent != nil && r0.subscriptions != nil && r0.subscriptions.internal != nil && r0.shared != nil && sharedInv(r0.shared) && r0.inlineSubscriptions != nil && r0.inlineSubscriptions.internal != nil
 //@ ensures fresh(r0) || old(allocated(r0))
 //@ ensures fresh(r0) ==> emptyNode(r0) && (forall c string :: !has(r0.subscriptions.internal, c)) && (forall k int :: !has(r0.inlineSubscriptions.internal, k))
 //@ ensures old(wfTrie() && nodesValid()) ==> wfTrie() && nodesValid()
@@ -1129,20 +1129,32 @@ package mqtt
 //@ modifies entries(s.internal)
 //@ ensures !has(s.internal, id)
 //@ ensures forall k int :: k != id ==> (has(s.internal, k) <==> old(has(s.internal, k))) && s.internal[k] == old(s.internal[k])
-// shared-subscription tables (group -> client -> subscription): abstract membership
-// verif:spec sharedHas(ref, string, string) bool
-// verif:func mqtt.SharedSubscriptions.Get trusted pure
+// shared-subscription tables (group -> client -> subscription)
+// verif:def sharedHas(s *SharedSubscriptions, g string, c string) bool = s != nil && has(s.internal, g) && has(s.internal[g], c)
+// the table's shape: every group has a member table of its own
+// verif:def sharedInv(s *SharedSubscriptions) bool = s != nil && s.internal != nil && (forall g string :: has(s.internal, g) ==> s.internal[g] != nil && s.internal[g] != s.internal && allocated(s.internal[g])) && (forall g1 string, g2 string :: g1 != g2 && has(s.internal, g1) && has(s.internal, g2) ==> s.internal[g1] != s.internal[g2])
+// verif:func mqtt.SharedSubscriptions.Get
 //@ requires C32-lock-not-held-by-this-goroutine: s.RWMutex.lheld == 0
 //@ ensures C32-lock-released-on-return: s.RWMutex.lheld == 0
+//@ modifies s.RWMutex.lheld
 //@ ensures ok == sharedHas(s, group, id)
-// verif:func mqtt.SharedSubscriptions.Add trusted
+//@ ensures ok ==> val == s.internal[group][id]
+// verif:func mqtt.SharedSubscriptions.Add
 //@ requires C32-lock-not-held-by-this-goroutine: s.RWMutex.lheld == 0
 //@ ensures C32-lock-released-on-return: s.RWMutex.lheld == 0
-//@ modifies entries(s.internal), allentries("string", "packets.Subscription"), s.nshared
-// verif:func mqtt.SharedSubscriptions.Delete trusted
+//@ requires sharedInv(s)
+//@ ensures sharedInv(s)
+//@ modifies entries(s.internal), allentries("string", "packets.Subscription"), s.nshared, s.RWMutex.lheld
+//@ ensures C31-shared-member-added: sharedHas(s, group, id) && s.internal[group][id] == val
+//@ ensures C31-other-shared-members-untouched: forall g string, c string :: (g != group || c != id) ==> (sharedHas(s, g, c) <==> old(sharedHas(s, g, c))) && (sharedHas(s, g, c) ==> s.internal[g][c] == old(s.internal[g][c]))
+// verif:func mqtt.SharedSubscriptions.Delete
 //@ requires C32-lock-not-held-by-this-goroutine: s.RWMutex.lheld == 0
 //@ ensures C32-lock-released-on-return: s.RWMutex.lheld == 0
-//@ modifies entries(s.internal), allentries("string", "packets.Subscription"), s.nshared
+//@ requires sharedInv(s)
+//@ ensures sharedInv(s)
+//@ modifies entries(s.internal), allentries("string", "packets.Subscription"), s.nshared, s.RWMutex.lheld
+//@ ensures C31-shared-member-removed: !sharedHas(s, group, id)
+//@ ensures C31-other-shared-members-untouched: forall g string, c string :: (g != group || c != id) ==> (sharedHas(s, g, c) <==> old(sharedHas(s, g, c))) && (sharedHas(s, g, c) ==> s.internal[g][c] == old(s.internal[g][c]))
 
 // verif:def isShare(f string) bool = foldEq(lvl0(f), "$SHARE")
 // verif:def subNode(f string) = pathNode(f, 0)
@@ -1170,6 +1182,7 @@ package mqtt
 //@ axiom !subsview[client][filter]
 //@ ensures C31-unsubscribe-reports-whether-the-subscription-existed: !isShare(filter) && r0 ==> old(has(pathNode(filter, 0).subscriptions.internal, client))
 //@ ensures C31-unsubscribe-of-a-shared-subscription-reports-whether-it-existed: isShare(filter) && r0 ==> old(sharedHas(pathNode(filter, 2).shared, lvl1(filter), client))
+//@ ensures C31-other-members-of-the-share-groups-keep-their-subscriptions: isShare(filter) && pathNode(filter, 2) != nil ==> (forall g string, c string :: (g != lvl1(filter) || c != client) ==> (sharedHas(pathNode(filter, 2).shared, g, c) <==> old(sharedHas(pathNode(filter, 2).shared, g, c))))
 
 // verif:func mqtt.TopicsIndex.InlineSubscribe
 //@ requires C32-no-lock-held-by-this-goroutine: forall m ref :: m.lheld == 0
